@@ -316,3 +316,50 @@ func VH_C12_CloseBlockedResend() {
 	out.mu.Unlock()
 	p.shutdown()
 }
+
+// VH_C12_KeepaliveTellsPeer: a connection that closes itself (keep-alive
+// timeout on a half-dead link: nothing reaches the client any more, but what
+// the client sends still arrives) goes through the same Close as one closed
+// by the application: the peer - which has no keep-alive of its own - is told
+// by a FIN over the working direction, so that its blocked Recv fails instead
+// of hanging. The transport refuses writes under a cancelled context, as gRPC
+// streams do.
+func VH_C12_KeepaliveTellsPeer() {
+	p := &vPair{c2s: newLink("c2s", 0), s2c: newLink("s2c", 0)}
+	p.ctx, p.cancel = context.WithCancel(context.Background())
+	done := make(chan struct{}, 2)
+	go func() {
+		p.srv, p.srvErr = NewServerConn(p.ctx, p.s2c.send, p.c2s.recv)
+		done <- struct{}{}
+	}()
+	go func() {
+		p.cli, p.cliErr = NewClientConn(p.ctx, uint8(vIntRange("n", 1, 2)), p.c2s.send, p.s2c.recv, WithTimeoutOptions(WithKeepalivePing(2*time.Second, time.Second)))
+		done <- struct{}{}
+	}()
+	<-done
+	<-done
+	vAssert(p.cliErr == nil && p.srvErr == nil, "clean handshake failed")
+	if p.cliErr != nil || p.srvErr != nil {
+		return
+	}
+	p.s2c.mu.Lock()
+	p.s2c.dead = true
+	p.s2c.mu.Unlock()
+	srvRecv := make(chan error, 1)
+	go func() { _, err := p.srv.Recv(); srvRecv <- err }()
+	select {
+	case <-p.cli.quit:
+		vReach("keepalive-gave-up")
+	case <-time.After(60 * time.Second):
+		vAssert(false, "keep-alive did not close the connection although nothing arrives any more")
+		return
+	}
+	select {
+	case err := <-srvRecv:
+		vReach("peer-told-after-keepalive")
+		vAssert(err != nil, "Recv returned data on a connection whose peer gave up")
+	case <-time.After(15 * time.Second):
+		vAssert(false, "the peer was not told (no FIN) after a keep-alive timeout although the transport towards it works: its Recv still hangs")
+	}
+	p.shutdown()
+}
